@@ -32,8 +32,11 @@ structure File (N : Type) where
       (name, entry offset from the start of text) — pclntab ≥ go1.18 stores offsets and `gosym` adds the
       `textStart` it was given (here: the `.text` section address, :41,:54) -/
   pcln : Option (Option (List (N × Addr)))
-  /-- `exe.Symbols()` (symbols_elf.go:61): `none` = no symbol table (stripped) or error; else (name, st_value) in file order -/
-  symtab : Option (List (N × Addr))
+  /-- `exe.Symbols()` (symbols_elf.go:61): `none` = no symbol table (stripped) or error; else (name, st_value,
+      hasAddress) in file order.  `hasAddress` = the entry names a place in the loaded image: it is defined in a section
+      (`st_shndx ≠ SHN_UNDEF`) and is not a file/section marker or a thread-local offset (`STT_FILE`, `STT_SECTION`,
+      `STT_TLS`); for the others `st_value` is 0, a TLS offset, … — not an address of anything. -/
+  symtab : Option (List (N × Addr × Bool))
 
 inductive Err | open | elf | noText | noPcln | pclnData | noFunc | noVar
   deriving DecidableEq, Repr
@@ -42,6 +45,11 @@ inductive Err | open | elf | noText | noPcln | pclnData | noFunc | noVar
 structure Table (N : Type) where
   funcs : List (N × Addr)
   syms : List (N × Addr)
+
+/-- the `gosym.Sym` list goom builds from the ELF symbols (symbols_elf.go:72): name and value of every entry that has
+    an address -/
+def addrSyms {N : Type} (ss : List (N × Addr × Bool)) : List (N × Addr) :=
+  ss.filterMap (fun e => if e.2.2 then some (e.1, e.2.1) else none)
 
 /-- symbols_elf.go:30 `osReadSymbols` -/
 def load {N : Type} (f : File N) : Except Err (Table N) :=
@@ -58,7 +66,7 @@ def load {N : Type} (f : File N) : Except Err (Table N) :=
       let funcs := es.map (fun e => (e.1, textStart + e.2))
       match f.symtab with
       | none => .ok ⟨funcs, []⟩          -- :62-66 "查找失败, 返回已有的symTable"
-      | some ss => .ok ⟨funcs, ss⟩       -- :72-80
+      | some ss => .ok ⟨funcs, addrSyms ss⟩       -- :72-80, entries without an address are left out
 
 /-- `for i := range t { if t[i].Name == name { return &t[i] } }; return nil`
     (gosym `LookupFunc`, symbols.go:81 `lookupSym`) -/
@@ -166,12 +174,16 @@ def run {N : Type} [DecidableEq N] (env : Env N) : St N → List (Op N) → St N
     let rest := run env r.1 ops
     (rest.1, r.2 :: rest.2)
 
-/-- Concurrent callers.  Every call starts with `initAlignment.Do(initAlignmentFunc)`: `sync.Once` lets exactly one
-    caller run the initialisation and blocks every other caller until it has finished, and the package state is
-    written nowhere else after that (the table is loaded inside the initialisation), so with respect to that state
-    calls of different goroutines behave as if executed one at a time in some order.  `threads` holds the remaining
-    calls of each goroutine, `sched` names the goroutine whose next call happens next; the result list pairs every
-    executed call with its result (a goroutine id that has nothing left to do is skipped). -/
+/-- Concurrent callers, at the granularity of whole calls.  `runSched` executes one complete `step` per scheduler tick:
+    atomicity of a call is built into this definition, it is NOT derived.  What justifies it for the lookups is
+    `sync.Once`: exactly one caller runs `initAlignmentFunc`, every other lookup blocks in `Do` until it has finished,
+    and afterwards lookups only read the table and the two alignments.  `AllFunctions` is the exception in the code
+    (subvert.go:46 `GetSymbolTable` is an unsynchronised check-then-store of two package variables, reachable without the
+    `Once`): two racing first loads both build an equal table from the same file and store it, which the model's
+    single `touch` stands for; the Go memory model does not bless that race, the check's concurrent lanes observe it
+    (AllFunctions among the racing first calls).  `threads` holds the remaining calls of each goroutine, `sched` names
+    the goroutine whose next call happens next; the result pairs every executed call with its result (an id with
+    nothing left to do is skipped). -/
 def runSched {N : Type} [DecidableEq N] (env : Env N) : St N → List (List (Op N)) → List Nat → List (Op N × Res)
   | _, _, [] => []
   | s, threads, t :: sched =>
